@@ -17,7 +17,24 @@ pub fn oracle(o: &Outcome, s: &Scen) -> Option<(String, serde_json::Value)> {
 
 pub fn run(cfg: &Cfg, rep: &mut Report) {
   let n = cfg.n(16_000, 600_000);
-  let mut fam = 0usize;
+  if cfg.mode == "dbg" {
+    // the thorough-tier deadlock scenario, many seeds
+    use crate::ast::*;
+    let table: Vec<Chain> = (0..2).map(|i| Chain::new(Src::Hot(i + 1), vec![Op::Spy(20 + i as u32)])).collect();
+    let chain = Chain::new(Src::Hot(0), vec![Op::Map(MapF::Add(-1001)), Op::MergeAll(2, table)]);
+    let s = Scen { name: "merge_all_threads", kind: Kind::Pipe(chain), n_hot: 3, initial_subs: 1,
+      threads: vec![vec![TOp::Next(0), TOp::Next(0), TOp::Complete(0)], vec![TOp::Next(1), TOp::Complete(1)], vec![TOp::Next(2), TOp::Unsub(0)]], workers: 0 };
+    for seed in 0..12000u64 {
+      let strat = match seed % 4 { 0 => crate::conc::Strategy::Pct(1), 1 => crate::conc::Strategy::Pct(2), 2 => crate::conc::Strategy::Pct(3), _ => crate::conc::Strategy::Uniform };
+      let o = run_scen(&s, seed, strat);
+      if let Some((k, d)) = universal(&o) {
+        println!("seed {} {} {}", seed, k, d);
+        for e in &o.evs { println!("  t{} #{} id{} {:?}", e.thread, e.seq, e.id, e.k); }
+        break;
+      }
+    }
+    return;
+  }
   campaign(
     cfg,
     rep,
@@ -25,7 +42,8 @@ pub fn run(cfg: &Cfg, rep: &mut Report) {
     n,
     0xC10,
     &mut |r: &mut Rng| {
-      fam = (fam + 1 + r.below(3)) % FAMILIES;
+      // the family depends on the case's own PRNG only (replayable by case id)
+      let fam = r.below(FAMILIES);
       random_scen(r, fam)
     },
     &oracle,
